@@ -15,6 +15,7 @@ RULE = (
     "argument combinations drawn, compared with a model written from the docstrings). Oracle: the flat index model "
     "and the selection recomputed from its definition. Non-trivial: >= 2 fields or >= 2 boundaries with an overlap "
     "or a cell-less point."
+    ' Per-unknown array values are also handed over as 2-d arrays in C and Fortran layout.'
 )
 ASSUMPTIONS = [
     "overlapping boundaries with different values admit the value of any owner (validity predicate)",
